@@ -533,5 +533,81 @@ class WithStream(Stream):
         return t
 
 
+class WithExitStream(Stream):
+    """"visible only inside its block" must also hold when the block is left by break/continue to an enclosing loop
+    or by an error that lax/warn mode suppresses. Oracle only (the expected text is written out by a tiny reference).
+    Added after seeded change C27-2 (scope popped only on normal exit) was missed."""
+
+    name = "withexit"
+    has_model = False
+    exhaustive = True
+
+    def cases(self, ctx):
+        out = []
+        for how in ("break", "continue", "error-lax", "error-warn", "normal"):
+            for outer in (None, "o"):
+                for depth in (1, 2):
+                    for when in (1, 2, 3):
+                        out.append({"how": how, "outer": outer, "depth": depth, "when": when})
+        return out
+
+    @staticmethod
+    def source(case):
+        how = case["how"]
+        inner = {"break": "{% if i == W %}{% break %}{% endif %}", "continue": "{% if i == W %}{% continue %}{% endif %}",
+                 "error-lax": "{% if i == W %}{{ 1 | divided_by: 0 }}{% endif %}", "error-warn": "{% if i == W %}{{ 1 | divided_by: 0 }}{% endif %}",
+                 "normal": ""}[how].replace("W", str(case["when"]))
+        body = "[{{ p }}]" + inner + "."
+        for d in range(case["depth"]):
+            body = "{% with p: i, q" + str(d) + ": 7 %}" + body + "{% endwith %}"
+        pre = "{% assign p = 'o' %}" if case["outer"] else ""
+        return pre + "{% for i in (1..3) %}" + body + "<{{ p }}{{ q0 }}>{% endfor %}|{{ p }}{{ q0 }}|"
+
+    @staticmethod
+    def expected(case):
+        o = case["outer"] or ""
+        how, w = case["how"], case["when"]
+        out = ""
+        for i in (1, 2, 3):
+            out += f"[{i}]"
+            if i == w and how == "break":
+                break
+            if i == w and how == "continue":
+                continue
+            if i == w and how.startswith("error"):
+                break  # a suppressed error abandons the rest of the top-level node that raised: the whole for loop
+            out += "." + f"<{o}>"
+        return out + f"|{o}|"
+
+    def impl(self, case):
+        import warnings
+
+        from liquid import Environment, Mode
+        from liquid.exceptions import LiquidError
+
+        mode = {"error-lax": Mode.LAX, "error-warn": Mode.WARN}.get(case["how"], Mode.STRICT)
+        env = Environment(extra=True, tolerance=mode)
+        try:
+            with warnings.catch_warnings():
+                warnings.simplefilter("ignore")
+                return {"out": env.from_string(self.source(case)).render()}
+        except LiquidError as e:
+            return {"err": type(e).__name__}
+        except Exception as e:  # noqa: BLE001
+            return {"err": "!" + type(e).__name__}
+
+    def oracle(self, case, obs):
+        exp = self.expected(case)
+        if obs.get("out") != exp:
+            return (f"withexit|{case['how']}|binding-visible-after-endwith", f"{self.source(case)!r} rendered {obs!r}, documented {exp!r}")
+        return None
+
+    def nontrivial(self, case, obs):
+        return case["how"] != "normal"
+
+    def tags(self, case, obs):
+        return [case["how"], f"depth{case['depth']}"]
+
+
 def streams(ctx):
-    return [BindStream(), CallStream(), WithStream()]
+    return [BindStream(), CallStream(), WithStream(), WithExitStream()]
